@@ -89,7 +89,7 @@ func TestRVOLEBbot(t *testing.T) {
 // theta; 1: it does) and i in the payload columns (< l) or the check columns (>= l); Eta[k]; one
 // bit of Mu; with withOT also one bit of the inner extension message (X, T[i], U[i]).
 func genRvoleFault(t *rapid.T, l, rho int, beta []byte, withOT bool) (*rvFault, string) {
-	fields := []string{"ATilde", "ATilde", "ATilde", "ATilde", "Eta", "Eta", "Mu"}
+	fields := []string{"ATilde", "ATilde", "ATilde", "ATilde", "Eta", "Eta", "Mu", "Mu"}
 	if withOT {
 		fields = append(fields, "OtX", "OtT", "OtU")
 	}
